@@ -45,8 +45,9 @@ func vfNewForeign(ctx context.Context, api ipfsutil.ExtendedCoreAPI, g *protocol
 	if err != nil {
 		return nil, err
 	}
-	yes := true
-	gc, err := db.OpenGroup(ctx, g, &orbitdb.CreateDBOptions{LocalOnly: &yes})
+	// no pubsub replication: the node under test already listens on the stores' topics on this IPFS node
+	yes, no := true, false
+	gc, err := db.OpenGroup(ctx, g, &orbitdb.CreateDBOptions{LocalOnly: &yes, Replicate: &no})
 	if err != nil {
 		return nil, err
 	}
